@@ -229,6 +229,7 @@ struct Walker {
 		if (x.overflow) st.cls("trace_overflow");
 		{ bool inRound = false;
 		  for (int i = 0; i < x.n; ++i) { const Ev& e = x.tr[i];
+			if (e.kind == E_ACT_PLAN && e.method != 255 && e.f > 0.5f && e.a >= 0 && e.a < HV_REGION_COUNT) in.planExists[e.a] = true;
 			if (e.kind == E_ACT_PLAN) { in.plansUsed = true; if (e.method != 255 && e.b > 0 && e.b < HV_NS && node(e.b).kind == ORTHO) { bool onlyOrtho = true; for (int c = node(e.b).parent; c >= 0; c = node(c).parent) if (node(c).kind != ORTHO) onlyOrtho = false; if (onlyOrtho) in.degeneratePlanDest = true; } }
 			if (e.kind == E_ROUND) inRound = true;
 			// marks set while transitions are being processed are not consumed by this step's plan update
@@ -670,7 +671,7 @@ void Walker::step(const Op& o, size_t index) {
 		bool ok = false; LIB(ok = f.replayTransitions(&v[0], (hfsm2::Short) n)); (void) ok;
 		afterCall(in, what, true); in.overlongReplay = false; in.degenerateReplay = false;
 		for (int i = 0; i < x.n; ++i) if (isGuard(x.tr[i])) { S.violation("C09", "replayTransitions() consulted a guard"); break; }
-		in.queued.clear(); in.queuedTags.clear(); in.model.cfg = readCfg(f); st.cls("replay_of_generated_history"); if (n > HV_COMPO_COUNT * HV_SUBST_LIMIT) st.cls("replay_longer_than_history_capacity");
+		in.model.cfg = readCfg(f); st.cls("replay_of_generated_history"); // (queued requests stay queued) if (n > HV_COMPO_COUNT * HV_SUBST_LIMIT) st.cls("replay_longer_than_history_capacity");
 		++S.cfgChanges; break; }
 	case OP_COPY_DROP: { // C11: keep using a copy after its original is gone (poisoned for ASan). Manual activation only (a destructor that exits would
 		// run callbacks for the original); the built-in generator is known finding F4 and excluded
@@ -842,6 +843,7 @@ void Walker::judgePlans(Inst& in, const std::vector<std::vector<PTask>>& before,
 			int found = -1; for (size_t k = 0; k < plan.size(); ++k) { if (!wasActive[plan[k].origin]) break; if (plan[k].dest == q.dest && succ[plan[k].origin]) { found = (int) k; break; } }
 			if (found < 0) { std::snprintf(buf, sizeof buf, "region %d requested %s->%d on behalf of its plan, but the plan holds no task to %d whose origin is active and succeeded (and that is not behind a task with an inactive origin) (%s, step %u)", q.head, TTN[q.type % 7], q.dest, q.dest, what, S.stepNo); S.violation("C06", buf); continue; }
 			if (plan[found].type != q.type) { if (!(q.type == T_CHANGE && S.known("F12"))) { std::snprintf(buf, sizeof buf, "task %d->%d of kind %s was executed as %s (%s, step %u)", plan[found].origin, plan[found].dest, TTN[plan[found].type % 7], TTN[q.type % 7], what, S.stepNo); S.violation("C06", buf); } }
+			if (plan[found].origin == plan[found].dest) succ[plan[found].origin] = false; // a cyclic task consumes the success it was waiting for
 			plan.erase(plan.begin() + found); }
 	  } }
 	// the plans after the step = what remains (the library also empties a plan when it reports success)
@@ -1081,6 +1083,9 @@ void Walker::firstActivation(Inst& in) {
 	if (!guardRequests && !m.randomNone && !(RNG_BUILTIN && m.usedRandom) && (!lib.sameActive(m.cfg) || !lib.sameResumable(m.cfg)))
 		S.violation("C02", "first activation: library " + lib.str() + " prescribed " + m.cfg.str());
 	m.cfg = lib; in.queued.clear(); in.queuedTags.clear();
+	{ // requests issued by entry guards beyond the substitution limit stay queued (F14)
+		std::vector<Round> rs = segmentRounds(x);
+		if ((int) rs.size() - 1 >= HV_SUBST_LIMIT && !rs.back().issued.empty()) { for (int i = rs.back().firstEv; i <= rs.back().lastEv; ++i) if (x.tr[i].kind == E_ACT_REQ && (int) in.queued.size() < HV_COMPO_COUNT) { in.queued.push_back(Req{x.tr[i].a, x.tr[i].b}); in.queuedTags.push_back(x.tr[i].tag); } st.cls("activation_with_leftover_requests"); } }
 	enteredMatchesActive(in, "first activation");
 }
 
